@@ -121,6 +121,9 @@ func (e MyI32) String() string { return "ENUM_" + strconv.Itoa(int(e)) }
 func (v MyI8) IsZero() bool    { return v == -1 }
 func (v MyF64) IsZero() bool   { return v == 1.5 }
 func (s MyStr) String() string { return "<" + string(s) + ">" }
+
+// Len is the BYTE length (containers often have a Len method; a string's measure is its character count).
+func (s MyStr) Len() int { return len(s) + 1 }
 func (u MyU8) String() string  { return "u8" }
 
 // NamedScalars maps a scalar kind name to its named variant.
